@@ -158,21 +158,34 @@ type Worker struct {
 	Restarts int
 }
 
+// tailBuffer keeps the beginning of what was written (a fatal error announces itself first) and the end.
 type tailBuffer struct {
-	mu sync.Mutex
-	b  []byte
+	mu   sync.Mutex
+	head []byte
+	b    []byte
 }
 
 func (t *tailBuffer) Write(p []byte) (int, error) {
 	t.mu.Lock()
+	if len(t.head) < 2048 {
+		n := 2048 - len(t.head)
+		if n > len(p) {
+			n = len(p)
+		}
+		t.head = append(t.head, p[:n]...)
+	}
 	t.b = append(t.b, p...)
-	if len(t.b) > 8192 {
-		t.b = t.b[len(t.b)-8192:]
+	if len(t.b) > 4096 {
+		t.b = t.b[len(t.b)-4096:]
 	}
 	t.mu.Unlock()
 	return len(p), nil
 }
-func (t *tailBuffer) String() string { t.mu.Lock(); defer t.mu.Unlock(); return string(t.b) }
+func (t *tailBuffer) String() string {
+	t.mu.Lock()
+	defer t.mu.Unlock()
+	return string(t.head) + "\n" + string(t.b)
+}
 
 func (w *Worker) start() error {
 	cmd := exec.Command(os.Args[0], "-test.run=^$")
